@@ -467,6 +467,12 @@ def _r4_branch(ctx, cname, construct, g, s, gparams, sparams, sargs, a, v):
             return tn
         kp = conj_list(subst(pred))
         cp = conj_list(v)
+        from ..vg import walk_terms, Ite
+        opaque = [c_ for c_ in cp if any(isinstance(t_, (Ite, App)) for t_ in walk_terms(c_))]
+        if opaque:
+            # a membership predicate that did not reduce to comparisons (a conditional on something the evaluator cannot
+            # decide, an opaque call) cannot be compared with the kernel's: not decided, rather than "differs"
+            raise AnalysisError('C02.R4', construct, f'contains() predicate not reducible to comparisons: {show(opaque[0], 200)}')
         res = []
         ok = len(kp) == len(cp)
         if ok:
